@@ -45,7 +45,10 @@ PROP = dict(
         "total bonded tokens are an oracle input recorded per block; the supply of the bond denomination is the model's own supply "
         "when bond denom = mint denom (the app's configuration), else an oracle input",
         "no-overflow side conditions of the theorems: (a+c+1)*(1+max_variance+1) and max_variance*10^18 stay below the 315-bit "
-        "LegacyDec limit (stated as calc_guard); beyond it the real code panics and the model returns None (compared by the harness)",
+        "LegacyDec limit (stated as calc_guard); beyond it the real code panics and the model returns None (compared by the harness). "
+        "Since the repair of the C18 finding the parameter validator (validateExponentialCalculation / provisionComputable) evaluates the worst case "
+        "of the provision and rejects parameters for which it panics, so stored parameters need no guard: C13_provision_no_panic_validated "
+        "(Model/Authority.v inf_computable is the validator's model, checked by C17)",
     ],
 )
 
